@@ -120,6 +120,13 @@ pub fn c01() -> PropDef {
         check: check_c01,
         adjust: no_adjust,
         assumptions: COMMON_ASSUMPTIONS,
+        tiny: || {
+            tiny_cases(
+                &[Term::CollectVec],
+                &[&[StageKind::Map], &[StageKind::Filter], &[StageKind::FlatMap]],
+                &[&[1, 0, 2, 1], &[0, 2, 3]],
+            )
+        },
     }
 }
 
@@ -267,6 +274,13 @@ pub fn c03() -> PropDef {
         check: check_c03,
         adjust: no_adjust,
         assumptions: COMMON_ASSUMPTIONS,
+        tiny: || {
+            tiny_cases(
+                &[Term::Reduce { op: RedOp::Add }, Term::MinByKey],
+                &[&[StageKind::Filter], &[StageKind::FlatMap]],
+                &[&[1, 0, 2, 1], &[0, 0, 3]],
+            )
+        },
     }
 }
 
@@ -355,6 +369,7 @@ pub fn c04() -> PropDef {
         check: check_c04,
         adjust: no_adjust,
         assumptions: COMMON_ASSUMPTIONS,
+        tiny: || tiny_cases(&[Term::Count], &[&[StageKind::FilterMap], &[StageKind::Filter]], &[&[1, 0, 2, 1], &[0, 0, 3]]),
     }
 }
 
@@ -464,6 +479,7 @@ pub fn c06() -> PropDef {
         check: check_c06,
         adjust: no_adjust,
         assumptions: COMMON_ASSUMPTIONS,
+        tiny: no_tiny,
     }
 }
 
@@ -509,5 +525,6 @@ pub fn c07() -> PropDef {
         check: check_c07,
         adjust: no_adjust,
         assumptions: COMMON_ASSUMPTIONS,
+        tiny: no_tiny,
     }
 }
